@@ -63,6 +63,8 @@ class LifecycleScenario(Scenario):
         P = self.params
         env.world.create(CLUSTER_PEERING, None, 'default', {})
         env.world.create(KEX, 'ns', 'a', {'spec': {'x': 1}})
+        for i in range(int(P.get('objects', 1)) - 1):
+            env.world.create(KEX, 'ns', f'more{i}', {'spec': {'x': 10 + i}})
         reg = kopf.OperatorRegistry()
         add_login(reg, env.world)
         for i, script in enumerate(P.get('startup', [['ok']])):
@@ -76,6 +78,8 @@ class LifecycleScenario(Scenario):
                 daemon_fn(env, 'dm', reaction=d['reaction'], exit_delay=d.get('exit_delay', 0.0)))
         settings = make_settings(peering__standalone=False, peering__name='default', peering__priority=0, peering__lifetime=60,
                                  peering__mandatory=True, networking__error_backoffs=())
+        if P.get('worker_limit'):
+            settings.queueing.worker_limit = int(P['worker_limit'])     # more objects than workers: some wait in the scheduler's queue
         kw: dict[str, Any] = {}
         if P.get('bad_memo'):
             kw['memo'] = BadMemo()
@@ -193,6 +197,12 @@ class LifecycleScenario(Scenario):
                 if failure and exit_ev[1]['how'] != 'raised':
                     out.append(self.viol(env, 'failure-not-reraised', f"after {trigger[1]} operator() ended as '{exit_ev[1]['how']}' instead of re-raising the failure",
                                          clause='re-raises', trigger=trigger[1].split(':')[0]))
+        # a stop is a stop: once the drain window (queueing.exit_timeout = 2 s) is over, no further object starts being handled
+        if trigger is not None:
+            late = [(t, p['name']) for t, k, p in obs if k == 'call' and p['id'] == 'c1' and t > trigger[0] + 2.0 + 0.5]
+            if late:
+                out.append(self.viol(env, 'handling-started-after-stop', f"after {trigger[1]} at t={trigger[0]} the change handler was still started for {late}",
+                                     clause='shuts-down', trigger=trigger[1].split(':')[0]))
         # ---- order at exit ----
         if exit_ev is not None and exit_ev[1]['how'] != 'cancelled':
             t_exit = exit_ev[0]
@@ -265,6 +275,10 @@ def scenarios(tier: str) -> tuple[list[LifecycleScenario], list[LifecycleScenari
         for what, at in itertools.product(('break:kopfexamples', 'break:customresourcedefinitions', 'break:clusterkopfpeerings'), (1.0, 5.0)):
             scripted_.append(LifecycleScenario(daemon=dm, user=[(at, what), (at + 1.0, 'create-b')], horizon=at + 45.0))
         scripted_.append(LifecycleScenario(daemon=dm, bad_memo=True, user=[(3.0, 'create-b')], horizon=45.0))
+    # more objects than workers (worker_limit): the queued ones must not be worked off after the stop / the failure
+    for trig, at in itertools.product(('stop', 'cancel', 'break:kopfexamples'), (1.0, 7.0)):
+        scripted_.append(LifecycleScenario(daemon=None, handler='ok~6', objects=4, worker_limit=1, user=[(at, trig)], horizon=at + 50.0))
+        scripted_.append(LifecycleScenario(daemon=None, handler='ok~6', objects=5, worker_limit=2, user=[(at, trig)], horizon=at + 50.0))
     # the explorer places the trigger anywhere (incl. during startup and shutdown sequences)
     for st, dm, trig in itertools.product([[['ok']], [['temp1', 'ok']]], (daemons[1], daemons[2]), ('stop', 'cancel')):
         searched.append(LifecycleScenario(startup=st, daemon=dm, user=[(30.0, trig)], horizon=70.0, early_user=True))
